@@ -6,18 +6,17 @@
    iterates a set), [spec bs ts dst] the specification written from the statement over the *set* bs,
    [observe] keeps dst_branches / ignored_branches / target_versions / merge paths or the error class.
 
-   The full statement is false of the code; C09_refuted proves it from a concrete cascade, C09_partial is
-   the statement with the two families of inputs on which the code leaves it excluded by name:
-     w1_corner bs dst   dst = hotfix/x.y.z, some stabilization/x.y.w in bs, development/x.y not in bs
-                        (code: AttributeError on None.has_stabilization; statement: rejected)
-     gap_free bs ts dst every stabilization/x.y.z that is not the destination, on a line at or above a
-                        development/stabilization destination, has 0 <= z <= next unreleased patch of x.y
-                        (otherwise the code answers "last release + 2" for development/x.y whatever z is). *)
+   The theorem holds of the code as repaired by f5b7e55 (a stabilization branch without its development
+   branch is rejected with DevBranchDoesNotExist also next to a hotfix destination) and 08d216c (the fix
+   version of development/x.y only skips the patch its untargeted stabilization branch holds); the two
+   inputs that failed before are kept as c09_regression_attr / c09_regression_gap and in
+   corpus/C09/00_regressions.json. *)
 From Coq Require Import List String ZArith Permutation.
 Require Import BertE.Model.Cascade BertE.Spec.C09Spec BertE.Proofs.C09Proofs.
 Import ListNotations.
 
-(* the full statement, as it would read if the code met it everywhere *)
+(* the full statement: for every number of branches and tags, every discovery order of every duplicate-free
+   set, every destination of the set, the code computes what the statement says (result or error class) *)
 Theorem C09_full_statement :
   C09_full <->
   (forall order bs tags dst, Permutation order bs -> NoDup bs -> In dst bs ->
@@ -25,19 +24,12 @@ Theorem C09_full_statement :
 Proof. exact (conj (fun H => H) (fun H => H)). Qed.
 Print Assumptions C09_full_statement.
 
-Theorem C09_refuted : ~ C09_full.
-Proof. exact c09_refuted_proof. Qed.
-Print Assumptions C09_refuted.
+Theorem C09_full_holds : C09_full.
+Proof. exact c09_full_proof. Qed.
+Print Assumptions C09_full_holds.
 
-(* for every number of branches and tags, every discovery order, every destination of the set *)
-Theorem C09_partial : forall order bs tags dst,
-  Permutation order bs -> NoDup bs -> In dst bs ->
-  ~ w1_corner bs dst -> gap_free bs (release_tags tags) dst ->
-  observe (build order tags dst) = spec bs (release_tags tags) dst.
-Proof. exact c09_partial_proof. Qed.
-Print Assumptions C09_partial.
-
-(* the discovery order never matters: full strength, no side condition, errors included *)
+(* the discovery order never matters (also a corollary of C09_full_holds, proved here directly for every
+   destination, in the set or not, errors included) *)
 Theorem C09_order_indep : forall o1 o2 tags dst,
   Permutation o1 o2 -> NoDup o1 -> build o1 tags dst = build o2 tags dst.
 Proof. exact c09_order_indep_proof. Qed.
@@ -56,9 +48,9 @@ Proof. exact c09_tag_order_error_proof. Qed.
 Print Assumptions C09_tag_order_error.
 
 (* the explicit error constructors of the totalised model (AttributeError, TypeError, KeyError,
-   NotASingleDevBranch) are not returned inside the hypotheses of C09_partial *)
+   NotASingleDevBranch) are never returned for an input of the quantifier *)
 Theorem C09_error_classes : forall order bs tags dst,
-  Permutation order bs -> NoDup bs -> In dst bs -> ~ w1_corner bs dst -> gap_free bs (release_tags tags) dst ->
+  Permutation order bs -> NoDup bs -> In dst bs ->
   forall e, build order tags dst = Err e ->
   e = UnsupportedMultipleStabBranches \/ e = DeprecatedStabilizationBranch \/ e = DevBranchDoesNotExist.
 Proof. exact c09_unreachable_errors_proof. Qed.
